@@ -27,13 +27,17 @@ echo "$DOC" | grep -q " 0 failed" || { echo "CONFIRM-FAIL: doc tests fail with t
 cp $SRC/_seed/demo.rs tests/seed_demo.rs
 WITH=$(cargo test --offline $FEAT --test seed_demo 2>&1 | grep -E "^test result|error(\[|:)|panicked|SIG|signal" | head -3)
 echo "demo with change: $WITH"
-if echo "$WITH" | grep -q "test result: ok"; then echo "CONFIRM-FAIL: demo passes with the change"; exit 1; fi
 WITHR=$(cargo test --offline $FEAT --release --test seed_demo 2>&1 | grep -E "^test result|error(\[|:)|SIG|signal" | head -2)
 echo "demo with change (release): $WITHR"
+# a change may manifest in one build profile only: the demo must fail in at least one of them
+if echo "$WITH" | grep -q "test result: ok" && echo "$WITHR" | grep -q "test result: ok"; then echo "CONFIRM-FAIL: demo passes with the change in both profiles"; exit 1; fi
 git apply -R $SRC/_seed/patch.diff
 WITHOUT=$(cargo test --offline $FEAT --test seed_demo 2>&1 | grep -E "^test result" | head -3)
 echo "demo without change: $WITHOUT"
 echo "$WITHOUT" | grep -q "test result: ok" || { echo "CONFIRM-FAIL: demo fails without the change"; exit 1; }
+WITHOUTR=$(cargo test --offline $FEAT --release --test seed_demo 2>&1 | grep -E "^test result" | head -3)
+echo "demo without change (release): $WITHOUTR"
+echo "$WITHOUTR" | grep -q "test result: ok" || { echo "CONFIRM-FAIL: demo fails without the change in release"; exit 1; }
 mkdir -p /verif/seeded/$NAME
 cp $SRC/_seed/patch.diff $SRC/_seed/demo.rs /verif/seeded/$NAME/
 cp $SRC/_seed/notes.md /verif/seeded/$NAME/notes.md 2>/dev/null
